@@ -7,3 +7,15 @@ check('C01', 'proof',
       "CPython dict/list semantics as executed; run-time rebinding of float/np in thermosteam modules (listed in evidence.trusted_base). "
       "Every path is additionally cross-checked natively with floats.",
       "deductive: sidecar contracts + VC generation by symbolic execution of the real functions, z3 discharge, native replay", "DESIGN.md 4/C01")
+check('C09', 'proof',
+      "Mode U: 42 SparseVector kernels (the + - * / kernels for scalar/sparse/array operands and their in-place forms, ==, !=, >, <, >=, <= kernels incl. "
+      "exec-template expansions) are verified against their contracts (dense image = operator on dense images with length-1 broadcasting, rep_ok of the "
+      "result, frame, ValueError exactly on shape mismatch) for vectors of ARBITRARY size: VCs are generated from the AST of the real source on every run "
+      "(pointwise loop summaries, no unrolling) and discharged by z3; counter-models are replayed on the real kernel. Mode S: the public operator dispatch "
+      "layer (exec-generated __add__.., __iadd__.., comparisons, reduce_ndim, constructors) is checked against NumPy itself on object arrays of the same "
+      "symbolic values for every operand pairing up to 2x2 (quick) / 2x3 (thorough).",
+      "Floats as reals; NumPy's inf/nan results of division by zero are outside the contract (requires divisor != 0 where the numerator is != 0). "
+      "Mode S structure bounded (shapes <= 2x3). Not yet under contract: indexing (__getitem__/__setitem__), reductions, SparseLogicalVector kernels, "
+      "copy/neg/abs (they are executed as real code by the other checks). Known findings F-C09-K1a..K4 (NumPy-incompatible broadcasting of the dispatch layer) "
+      "are reported as KNOWN-FINDING.",
+      "deductive: AST->SMT VC generation with pointwise loop summaries (unbounded sizes) + symbolic execution of the real dispatch code against NumPy as oracle; z3", "DESIGN.md 4/C09")
